@@ -328,7 +328,9 @@ def dgram_faults(ctx):
         for name, cfg, steps in E.corpus(focus):
             if 'error' in name or 'retries' in name or 'no-free-id' in name:
                 cases.append((name, focus, cfg, steps))
-    for name, focus, cfg, steps in cases:
+    for n_case, (name, focus, cfg, steps) in enumerate(cases):
+        if hasattr(E, 'at_level'):
+            cfg = E.at_level(cfg, n_case, ctx.seed)      # verbosity is a dimension of every scenario
         lg = E.execute('c08:' + name, cfg, steps, 0)
         ctx.count()
         ctx.mark(('dgram', name), True)
